@@ -2597,8 +2597,12 @@ impl<Alloc: BrotliAlloc> BrotliEncoderStateStruct<Alloc> {
             }
             if self.input_pos_ != self.last_flush_pos_ {
                 let mut avail_out: usize = self.available_out_;
+                #[cfg(brotli_verif)]
+                let verif_ev = verif_stream_hook::before(self, 1, false, true, *next_out_offset);
                 let result = self.encode_data(false, true, &mut avail_out, metablock_callback);
                 self.available_out_ = avail_out;
+                #[cfg(brotli_verif)]
+                verif_stream_hook::after(self, verif_ev, result, false);
                 if !result {
                     return false;
                 }
@@ -2751,6 +2755,13 @@ impl<Alloc: BrotliAlloc> BrotliEncoderStateStruct<Alloc> {
                         continue;
                     }
                 }
+                #[cfg(brotli_verif)]
+                let mut verif_ev =
+                    verif_stream_hook::before(self, 2, is_last, force_flush, *next_out_offset);
+                #[cfg(brotli_verif)]
+                {
+                    verif_ev.bytes = block_size as u64;
+                }
                 if max_out_size <= *available_out {
                     storage = &mut next_out_array[*next_out_offset..]; //GetNextOut!(s);
                 } else {
@@ -2809,6 +2820,11 @@ impl<Alloc: BrotliAlloc> BrotliEncoderStateStruct<Alloc> {
                 self.last_bytes_ = storage[(storage_ix >> 3)] as u16
                     | ((storage[1 + (storage_ix >> 3)] as u16) << 8);
                 self.last_bytes_bits_ = (storage_ix & 7u32 as usize) as u8;
+                #[cfg(brotli_verif)]
+                {
+                    verif_ev.out_size = (storage_ix >> 3) as u64;
+                    verif_stream_hook::after(self, verif_ev, true, inplace != 0);
+                }
                 if force_flush {
                     self.stream_state_ = BrotliEncoderStreamState::BROTLI_STREAM_FLUSH_REQUESTED;
                 }
@@ -2945,9 +2961,14 @@ impl<Alloc: BrotliAlloc> BrotliEncoderStateStruct<Alloc> {
 
                 self.update_size_hint(*available_in);
                 let mut avail_out = self.available_out_;
+                #[cfg(brotli_verif)]
+                let verif_ev =
+                    verif_stream_hook::before(self, 0, is_last, force_flush, *next_out_offset);
                 let result =
                     self.encode_data(is_last, force_flush, &mut avail_out, metablock_callback);
                 self.available_out_ = avail_out;
+                #[cfg(brotli_verif)]
+                verif_stream_hook::after(self, verif_ev, result, false);
                 //this function set next_out to &storage[0]
                 if !result {
                     return false;
@@ -3000,6 +3021,95 @@ impl<Alloc: BrotliAlloc> BrotliEncoderStateStruct<Alloc> {
             result = &[];
         }
         result
+    }
+}
+
+/// Verification hook (compiled only with `--cfg brotli_verif`): a thread-local log of the
+/// payload-encoder invocations made by the streaming state machine (`encode_data` from
+/// `compress_stream` / `process_metadata`, one block of `compress_stream_fast`), so that a
+/// harness can replay the control skeleton in an executable model with the payload encoder
+/// as a recorded oracle.  No behaviour of the crate depends on it.
+#[cfg(brotli_verif)]
+pub mod verif_stream_hook {
+    use super::*;
+    use std::cell::RefCell;
+    use std::vec::Vec;
+
+    #[derive(Clone, Copy, Debug, Default)]
+    pub struct EncodeEvent {
+        /// 0 = encode_data from compress_stream, 1 = encode_data from process_metadata,
+        /// 2 = one block of compress_stream_fast
+        pub site: u8,
+        pub is_last: bool,
+        pub force_flush: bool,
+        /// caller's output cursor (`*next_out_offset`) when the encoder was invoked
+        pub next_out_offset: u64,
+        pub input_pos: u64,
+        pub last_flush_pos_before: u64,
+        pub last_processed_pos_before: u64,
+        /// bytes offered: unprocessed_input_size() (sites 0/1), block_size (site 2)
+        pub bytes: u64,
+        pub carry_bits_before: u8,
+        pub carry_before: u16,
+        pub result: bool,
+        pub inplace: bool,
+        /// whole bytes produced (`*out_size` / `storage_ix >> 3`)
+        pub out_size: u64,
+        pub carry_bits_after: u8,
+        pub carry_after: u16,
+        pub last_flush_pos_after: u64,
+        pub last_processed_pos_after: u64,
+        pub is_last_block_emitted_after: bool,
+    }
+
+    thread_local! {
+        static EVENTS: RefCell<Vec<EncodeEvent>> = RefCell::new(Vec::new());
+    }
+
+    pub fn before<Alloc: BrotliAlloc>(
+        s: &BrotliEncoderStateStruct<Alloc>,
+        site: u8,
+        is_last: bool,
+        force_flush: bool,
+        next_out_offset: usize,
+    ) -> EncodeEvent {
+        EncodeEvent {
+            site,
+            is_last,
+            force_flush,
+            next_out_offset: next_out_offset as u64,
+            input_pos: s.input_pos_,
+            last_flush_pos_before: s.last_flush_pos_,
+            last_processed_pos_before: s.last_processed_pos_,
+            bytes: s.input_pos_.wrapping_sub(s.last_processed_pos_),
+            carry_bits_before: s.last_bytes_bits_,
+            carry_before: s.last_bytes_,
+            ..EncodeEvent::default()
+        }
+    }
+
+    pub fn after<Alloc: BrotliAlloc>(
+        s: &BrotliEncoderStateStruct<Alloc>,
+        mut ev: EncodeEvent,
+        result: bool,
+        inplace: bool,
+    ) {
+        ev.result = result;
+        ev.inplace = inplace;
+        if ev.site != 2 {
+            ev.out_size = s.available_out_ as u64;
+        }
+        ev.carry_bits_after = s.last_bytes_bits_;
+        ev.carry_after = s.last_bytes_;
+        ev.last_flush_pos_after = s.last_flush_pos_;
+        ev.last_processed_pos_after = s.last_processed_pos_;
+        ev.is_last_block_emitted_after = s.is_last_block_emitted_;
+        EVENTS.with(|e| e.borrow_mut().push(ev));
+    }
+
+    /// drain the log of the calling thread
+    pub fn take() -> Vec<EncodeEvent> {
+        EVENTS.with(|e| core::mem::take(&mut *e.borrow_mut()))
     }
 }
 
